@@ -316,6 +316,22 @@ def check(run):
     run.check(not (isinstance(req2, K) and req2.v is True), 'D6', 'Cell.__eq__[cells built earlier in the process]' if (isinstance(req2, K) and req2.v is True) else 'history: leaves compare by their own hash',
               f"leaf '1' == leaf '11000000' gives {vrepr(req2)[:40]}", weq)
     run.evaluations += 2
+    # a construction that is refused (depth 1024) and then an ordinary construction: what the refused one left behind must not show in the next cell
+    it = mk(prog)
+    deep = cm.forge_ordinary_child(it, 21, depth=1023)
+    try:
+        cm.new_cell(it, cm.tvm_bits(it, cm.data_bits(3, 'over')), [deep])
+        refused = False
+    except RaiseEx:
+        refused = True
+    after = cm.new_cell(it, cm.tvm_bits(it, BA([Seg(5, 'k', '10110')])), [])
+    it2 = mk(prog)
+    fresh = cm.new_cell(it2, cm.tvm_bits(it2, BA([Seg(5, 'k', '10110')])), [])
+    ta, tf = repr(it.vkey(after.attrs.get('_hash'))), repr(it2.vkey(fresh.attrs.get('_hash')))
+    good = refused and ta == tf
+    run.check(good, 'D6', 'Cell.__init__[after a refused construction]' if not good else 'history: refused construction leaves nothing behind',
+              f'a cell of depth 1024 is {"refused" if refused else "NOT refused"}; the leaf built next hashes {"as in a fresh process" if ta == tf else "differently: " + ta[:70] + " instead of " + tf[:50]}', weq)
+    run.evaluations += 1
     # two different prunings of one tree, built in turn: the same data, the same level mask, children with the same level-0 hashes and depths -
     # but different level-1 hashes (the pruned child stands at another position)
     it = mk(prog)
